@@ -301,7 +301,7 @@ impl<L: Language> std::fmt::Display for MultiPattern<L> {
         for (i, (pv, n, children)) in self.pats.iter().enumerate() {
             let children = children.iter().map(|x| Pattern::PVar(x.clone())).collect();
             let pat = Pattern::ENode(n.clone(), children);
-            write!(f, "{pv} == {pat}")?;
+            write!(f, "?{pv} == {pat}")?;
             if i != self.pats.len()-1 {
                 write!(f, ", ")?;
             }
